@@ -97,6 +97,7 @@ class FaceSpanningForest(SpanningForest):
         self.forbidden_edges : set = forbidden_edges
 
     def compute(self) -> None :
+        self.trees, self.roots = [], [] # a forest computed again starts from scratch
         visited = [False]*len(self.mesh.faces)
         for f in self.mesh.id_faces:
             if not visited[f]:
